@@ -293,7 +293,7 @@ EXTRA = {
             "on every run; proofs/GridTie.v proves they refine theories/Grid.v, and C16_source_diag_covers / C16_source_orth_covers "
             "restate the coverage theorem for the GENERATED code (assumptions: no constraints, conv2pos is the identity inside the "
             "box, conv.dim_sizes / search_space_size are the sizes and their product - each an observable the K/S-units compare)."),
-    "C08": (GEN_CORE + " Theorems C08_source_move_random_first_feasible, C08_source_move_climb_exits_at_first_feasible, C08_source_move_climb_progress, C08_source_random_iteration_dispatch."
+    "C08": (GEN_CORE + " Theorems C08_source_move_random_first_feasible, C08_source_move_climb_exits_at_first_feasible, C08_source_move_climb_progress, C08_source_random_iteration_dispatch, C08_source_init_random_search_first_feasible (generated Initializer)."
             " ALSO: finding F-D5 is machine-checked against the code generated from diagonal_grid_search.py: "
             "C08_source_diag_livelock_refuted (for EVERY amount of fuel the translated iterate does not return on a 1x4 space with "
             "3/4 feasible). The iterate steps of ParticleSwarm / Spiral / DifferentialEvolution are modelled (theories/Pop.v) and "
